@@ -156,7 +156,8 @@ func (s *Stream) ReassembledSG(sg reassembly.ScatterGather, ac reassembly.Assemb
 			continue
 		}
 		s.Data = append(s.Data, StreamData{
-			Bytes:       sg.Fetch(length),
+			// the fetched bytes may be a buffer page of the assembler that is recycled after this call
+			Bytes:       append([]byte(nil), sg.Fetch(length)...),
 			PacketIndex: uint64(i),
 		})
 		return
